@@ -293,7 +293,7 @@ for _p in ("C01", "C02", "C04", "C05", "C07", "C14", "C18"):
 # the real server under modulator latency: handlers suspended at their await points while other requests, socket closes and
 # re-identifications proceed; auditor at quiescence (oracle-only, see lib/suite_oracle.py and harness/src/lat_suite.rs)
 LAT_SUITE = {"kind": "oracle", "nvh_suite": "lat", "cases": {"quick": 1500, "thorough": 40000}}
-for _p in ("C01", "C05", "C12", "C14"):
+for _p in ("C01", "C05", "C12", "C14", "C07"):
     PROPS[_p]["suites"]["lat"] = dict(LAT_SUITE, oracle_tags=[_p])
 
 
@@ -568,3 +568,30 @@ PROPS["C07"]["suites"]["churn"] = dict(CHURN_SUITE["churn"], projection=PROPS["C
 
 # C07 (identities cannot be forged): what the modulator is told about the sender of a client's MOD_DIRECT (direct suite oracle)
 PROPS["C07"]["suites"]["direct"] = dict(PROPS["C17"]["suites"]["direct"], oracle_tags=["C07"])
+
+
+# C05 (and the properties that rest on it): the membership operations cut at their suspension points — every interleaving, every
+# notification outcome, every cancellation (Model/Micro.lean); the segment structure is regenerated from the source (Generated/Steps)
+MICRO_THMS = ["Narwhal.Micro.C05_micro_invariant", "Narwhal.Micro.C05_views_agree_at_quiescence", "Narwhal.Micro.C05_no_orphan_membership",
+              "Narwhal.Micro.C05_removed_channel_is_empty", "Narwhal.Micro.old_recheck_breaks_views", "Narwhal.Micro.steps_table_ok",
+              "Narwhal.Micro.C05_micro_invariant_code"]
+PROPS["C05"]["theorems"] = list(PROPS["C05"]["theorems"]) + ["Narwhal.Theorems.C05Micro"]
+PROPS["C05"]["audit_files"] = list(PROPS["C05"]["audit_files"]) + ["Narwhal/Model/Micro.lean"]
+PROPS["C05"]["expect_theorems"] = list(PROPS["C05"]["expect_theorems"]) + MICRO_THMS
+for _p in ("C01", "C14", "C18"):
+    # departed users (C01), released slots (C14) and the change log (C18) rest on the clean-up invariant: the module is rebuilt
+    # (table obligation `steps_table_ok` re-decided when the source changes); its theorems are audited under C05
+    PROPS[_p]["build_only"] = ["Narwhal.Theorems.C05Micro"]
+PROPS["C05"]["level_text"] += (
+    " Interleavings: a second model (Model/Micro.lean) cuts JOIN, LEAVE, on-behalf requests and the disconnect clean-up at their "
+    "suspension points (waiting for a channel lock, the modulator call of a notification), gives channel objects an identity (a removed "
+    "channel can still be locked by a task that looked it up earlier) and lets the environment choose every notification outcome and "
+    "cancel any suspended request; proved for every schedule: the index and the member sets agree up to the channels a running clean-up "
+    "still owes, a removed channel object has no members, no mapped channel is empty, and at quiescence the two listings agree. The "
+    "re-check `join_channel` made before repair a26f788 is disproved by a 13-step schedule (replayed on the real code by the lat suite's "
+    "directed history). Where the shared-state writes stand relative to the suspension points is read from the source on every run "
+    "(table obligation `steps_table_ok`).")
+PROPS["C05"]["assumptions"] = list(PROPS["C05"]["assumptions"]) + [
+    "micro-step model: a segment between two suspension points is atomic (literally so on one worker thread; across workers the channel "
+    "lock serialises segments of one channel, the cross-map check-then-act pairs D23 / D27 are not covered)"]
+PROPS["C19"]["expect_theorems"] = list(PROPS["C19"]["expect_theorems"])
